@@ -1,6 +1,7 @@
 /* mpsc.c — correspondence harness for include/mpsc_fifo.h (C15, part mpsc).
  * usage: mpsc <spare nodes> <script>
- * script thread 0 is THE consumer (ops: o = trypop); every other thread is a producer
+ * script thread 0 is THE consumer (ops: o = trypop, k = peek: look at the next payload without
+ * removing it; notes `call peek` / `ret peek <v or 0>`); every other thread is a producer
  * (ops: p<v> = push a node carrying the distinct positive value v).
  * Nodes circulate: trypop hands back the old stub node (carrying the popped value); the
  * consumer puts it on a LIFO free list from which producers take their next node, so
@@ -44,6 +45,13 @@ static void do_pop(void) {
   vr_note("ret pop %ld", v);
 }
 
+static void do_peek(void) {
+  vr_note("call peek");
+  void* d = NULL;
+  int r = mpsc_fifo_peek(&fifo, &d);
+  vr_note("ret peek %ld", r ? (long)d : 0L);
+}
+
 static void do_op(int t, const char* op) {
   if (op[0] == 'p' && t != 0) {
     long v = atol(op + 1);
@@ -54,6 +62,8 @@ static void do_op(int t, const char* op) {
     vr_note("ret push 1");
   } else if (op[0] == 'o' && t == 0) {
     do_pop();
+  } else if (op[0] == 'k' && t == 0) {
+    do_peek();
   } else {
     fprintf(stderr, "bad op %s for thread %d\n", op, t);
     exit(2);
